@@ -1,5 +1,41 @@
 ----------------------------- MODULE ConfigSim -----------------------------
-(* Emission wrapper: prints every completed case as one JSON line so that the harness can replay it. *)
-EXTENDS Config, Json
-EmitDone == stage = "done" => PrintT(ToJson(case))
+(* Emission wrapper: prints completed cases as one JSON line each so that the harness can replay     *)
+(* them through the real code.  The invariants of Config.tla are checked on EVERY state; what is     *)
+(* printed can be thinned out where the space is larger than what can be replayed: a case of the     *)
+(* error-code kind is printed iff CaseCode(case) % C18_EMIT_MOD = C18_EMIT_REM, a case of another    *)
+(* kind iff CaseCode(case) % C18_EMIT_MOD_REST = C18_EMIT_REM (environment variables, default 1 / 0  *)
+(* = print everything).  Malformed configurations are always printed.  CaseCode is a deterministic   *)
+(* multiplicative hash of the case, so the sample depends only on the seed given by the harness.     *)
+EXTENDS Config, Json, IOUtils
+
+EnvInt(name, dflt) == IF name \in DOMAIN IOEnv THEN atoi(IOEnv[name]) ELSE dflt
+EmitMod == EnvInt("C18_EMIT_MOD", 1)
+EmitModRest == EnvInt("C18_EMIT_MOD_REST", 1)
+EmitRem == EnvInt("C18_EMIT_REM", 0)
+
+Mix(x) == (x * 7919 + 12347) % 100003         \* x < 110000: stays below 2^31
+
+ValCode(v) == CASE v = "absent" -> 0 [] v = "none" -> 1 [] v = "v1" -> 2 [] v = "v2" -> 3
+SecCode(s) == 2 * ValCode(s.val) + (IF s.da THEN 1 ELSE 0)
+FileCode(f) == SecCode(f.top) + 8 * SecCode(f.ova) + 64 * SecCode(f.ovab) + 512 * (IF f.abfirst THEN 1 ELSE 0)
+               + 1024 * (CASE f.extpos = "first" -> 0 [] f.extpos = "mid" -> 1 [] f.extpos = "last" -> 2)
+RECURSIVE FilesCode(_, _)
+FilesCode(fs, i) == IF i > Len(fs) THEN 17 ELSE Mix(FilesCode(fs, i + 1) + FileCode(fs[i]))
+TokCode(t) == CASE t \in {"pos", "v1", "a1", "f1", "en"} -> 1 [] t \in {"neg", "v2", "a2", "f2", "dis"} -> 2
+                [] t = "enall" -> 3 [] t = "disall" -> 4
+RECURSIVE ArgvCode(_)
+ArgvCode(a) == IF a = << >> THEN 0 ELSE TokCode(Head(a)) + 5 * ArgvCode(Tail(a))
+CaseCode(c) ==
+    LET h1 == Mix(FilesCode(c.files, 1) + ValCode(c.cmd) + 4 * Len(c.q) + (IF c.q = <<"c">> THEN 16 ELSE 0))
+        h2 == Mix(h1 + ArgvCode(c.argv)
+                  + 32 * (CASE c.route = "inst" -> 0 [] c.route = "kwargs" -> 1 [] c.route = "argv" -> 2)
+                  + 128 * (CASE c.cfgsrc = "arg" -> 0 [] c.cfgsrc = "class" -> 1 [] c.cfgsrc = "none" -> 2)
+                  + (IF c.layout = "nested" THEN 512 ELSE 0) + (IF c.default = <<"F">> THEN 1024 ELSE 0))
+    IN Mix(h2)
+
+Emitted(c) ==
+    \/ c.bad # "none"
+    \/ CaseCode(c) % (IF c.kind = "bool" THEN EmitMod ELSE EmitModRest) = EmitRem % (IF c.kind = "bool" THEN EmitMod ELSE EmitModRest)
+
+EmitDone == (stage = "done" /\ Emitted(case)) => PrintT(ToJson(case))
 =============================================================================
